@@ -4,7 +4,8 @@ from __future__ import annotations
 import random
 from fractions import Fraction as F
 
-from ..cases import Case, run_cases, world_program, Q, U, V, M, OP
+from ..cases import (Case, run_cases, world_program, currency_steps, Q, U,
+                     V, M, OP)
 from ..ctl import num, val, is_exc, EXACT_TYPES
 from ..gen import Decl, rand_fraction
 from ..models import rounding as RM
@@ -26,7 +27,9 @@ ANCHORS = ("ExchangeRate.__mul__", "ExchangeRate.__rtruediv__",
 
 XR = ["g", "quantity.money:ExchangeRate"]
 MONEY = ["g", "quantity.money:Money"]
-CURS = {"EUR": 2, "USD": 2, "JPY": 0, "BHD": 3}
+# three ISO currencies and a user-declared one whose smallest fraction is no
+# power of ten (five hundredths)
+CURS = {"EUR": 2, "USD": 2, "JPY": 0, "BHD": 3, "XNK": F(1, 20)}
 XTYPES = {"Mass": ["kg", "g", "lb"], "Length": ["m", "km", "ft"],
           "Duration": ["s", "h", "min"]}
 
@@ -163,7 +166,7 @@ def price_world(chk, rng, wi):
     pre = [{"id": "Money", "e": MONEY}] + \
           [{"id": xt, "e": ["g", "quantity.predefined:" + xt]}
            for xt in XTYPES] + \
-          [{"e": M(MONEY, "register_currency", ["s", c])} for c in CURS]
+          currency_steps(CURS)
     wid = "world%d" % wi
     subs = []
     keys = list(declared)
@@ -388,7 +391,7 @@ def run(chk, R, tier, seed):
     for mode in RM.MODES:
         chk.require("mode|%s|tie" % mode)
     w = predefined_world(CURS)
-    prelude = [{"e": M(MONEY, "register_currency", ["s", c])} for c in CURS]
+    prelude = currency_steps(CURS)
     wrap = lambda jd: (lambda obs, rec, case: jd(obs))      # noqa: E731
     n = 8000 if tier == "quick" else 60000
     cases = []
